@@ -29,3 +29,8 @@ pub fn evaluate<'a>(v: &'a Value, ptr: &str) -> Option<&'a Value> {
     }
     Some(cur)
 }
+
+#[cfg(kani)]
+mod verif_kani {
+    include!(concat!(env!("REPE_VERIF_KANI"), "/json_pointer.rs"));
+}
